@@ -11,8 +11,8 @@ META = dict(
           'only at the end, no silent stall, seek from start/current/end, independent clones; byte views and writers are the zero-padded bit views. '
           'TLC enumerates every small composition x every short request history (GEN) for execution by the real readers, the harness adds seeded '
           'random compositions (depth <= 3 over sections, multi, zero, limit, bit<->byte adapters, read-ahead cache, progress and context wrappers, '
-          'real files) and histories of up to 14 calls, and TLC validates every recorded history. The read-ahead cache is additionally model '
-          'checked as built (AheadCache.tla, symbolic file bytes) against its representation invariant, with the pre-repair variant as a witness.'),
+          'real files) and histories of up to 14 calls, and TLC validates every recorded history. The read-ahead cache (AheadCache.tla, symbolic file bytes, pre-repair variant as witness) and '
+          'Read64/Write64 (ReadWrite64.tla, one disjunct per branch of the code, symbolic bits, all first bits x all widths 0..64) are model checked as built.'),
     note=('Exhaustive inside the GEN constants (evidence tlc_runs), random beyond. Denotations up to a few hundred bits per history. Short reads are '
           'allowed by the requirement, so a reader that returns fewer bits without stalling is never an alarm.'),
     technique='TLA+ denotational spec of reader terms (BitIO.tla): TLC-enumerated histories replayed on real bitio readers + TLC trace validation; AheadCache.tla MC',
@@ -93,6 +93,16 @@ def run(ctx):
     ctx.cov['aheadcache_prerepair_variant_violates'] = r.violated
     if not r.violated:
         raise Inconclusive('AheadCache witness variant unexpectedly holds (model vacuous?)')
+    # 1b. as-built model of Read64 / Write64 (every branch of the code, symbolic bits): all first bits 0..15 x all widths 0..64
+    rw = ctx.tlc('ReadWrite64', 'rw.cfg', cfg_text='SPECIFICATION Spec\nCONSTANTS\n MaxFirst = 15\n MaxBits = 64\nINVARIANT ReadRight\nINVARIANT WriteRight\nINVARIANT Progress\nCHECK_DEADLOCK FALSE\n',
+                 name='mc_readwrite64', coverage=True, timeout=1200)
+    ctx.tlc_expect_ok(rw, 'ReadWrite64 as built')
+    acts = getattr(rw, 'actions', {})
+    dead = [a for a in ('RAlignedWhole', 'RAlignedByte', 'RAlignedTail', 'RUnalignedHead', 'RUnalignedInside', 'WAlignedWhole', 'WAlignedByte',
+                        'WAlignedTail', 'WUnalignedHead', 'WUnalignedInside') if acts.get(a, (0, 0))[0] == 0]
+    ctx.cov['readwrite64_branches_taken'] = {k: v[0] for k, v in acts.items()}
+    if dead:
+        raise Inconclusive('ReadWrite64 model: branches never taken (vacuous): %s' % dead)
     # 2. GEN: every small composition x history
     cases = []
     g = ctx.tlc('BitIOGen', 'g.cfg', cfg_text=gen_cfg(2, th, not th), name='gen_bitio', timeout=3000)
